@@ -25,7 +25,7 @@ TIERS = {'quick': 5000, 'thorough': 250000}
 BUDGET = {'quick': 150, 'thorough': 1500}
 RULE = ('seeded plans: descriptor + 1-3 shared values + 2-5 tasks (encode / decode / streaming decode with own arrival '
         'sub-plan / print / native codec, each with its own codec mode) + schedule {history with repeats | generator '
-        'interleaving | baton-passed threads with seeded switch points at pyasn1 line events} + logging {off,on}. '
+        'interleaving | baton-passed threads with seeded switch points at pyasn1 line events} + logging {off, all, decoder, encoder, toggled between calls}. '
         'non-trivial: at least two tasks overlapped (an interleaving step of another task, or a thread switch, happened '
         'while a task was incomplete) or a task ran after another on the same shared objects; distinct = distinct plan digests')
 ASSUMPTIONS = [
@@ -106,7 +106,8 @@ def gen_plan(r, index, tier):
             sw.append([at, r.randrange(8)])
         sched['switches'] = sw
     return {'check': ID, 'workload': {'desc': desc, 'values': w['values'], 'open_types': w['open_types']},
-            'tasks': tasks, 'schedule': sched, 'logging': r.random() < 0.3,
+            'tasks': tasks, 'schedule': sched,
+            'logging': (r.choice(['all', 'all', 'decoder', 'encoder', 'toggle']) if r.random() < 0.3 else False),
             'isolation': 'fork' if r.random() < 0.02 else 'inproc'}
 
 
@@ -416,12 +417,18 @@ def execute(plan):
                               got=json.dumps(outcome)[:300], want=json.dumps(want)[:300],
                               got_cls=_cls(outcome), want_cls=_cls(want))
 
-    if plan.get('logging'):
-        debug.setLogger(debug.Debug('all', printer=sink))
+    logmode = plan.get('logging')
+    if logmode is True:
+        logmode = 'all'
+    if logmode and logmode != 'toggle':
+        debug.setLogger(debug.Debug(logmode, printer=sink))
     try:
         try:
             if mode == 'history':
                 for pos, ti in enumerate(sched['order']):
+                    if logmode == 'toggle':
+                        # the flag is flipped only between calls, when no decoder is suspended
+                        debug.setLogger(debug.Debug('all', printer=sink) if pos % 2 == 0 else None)
                     t = make_task(ti, plan['tasks'][ti], ctx, encs, plan, trace)
                     out = t.run_all()
                     tasks_run.append(t)
@@ -496,7 +503,7 @@ def execute(plan):
         return _gs_violation(plan, gs0, 'shared-run', trace, ctr)
     ctr['mode.%s' % mode] = 1
     ctr['isolation.%s' % plan.get('isolation', 'inproc')] = 1
-    ctr['logging.%s' % ('on' if plan.get('logging') else 'off')] = 1
+    ctr['logging.%s' % (logmode or 'off')] = 1
     if plan.get('logging'):
         ctr['log.messages'] = sink.n
     for t in plan['tasks']:
